@@ -32,7 +32,7 @@ func TestMain(m *testing.M) {
 	vk.Main(m, vk.Config{
 		Property: "C14",
 		Rule: "store test: a generated history (1-6 concurrent committers, or 1-9 concurrent replicators with a generated launch order so that values land in the value logs out of id order; " +
-			"MaxIOConcurrency 1-4, FileSize 64-512 B, value sizes around the chunk size, empty values at any position, compression on/off, value cache on/off) followed by a generated program of " +
+			"now and then one replicator launched 2-12 (or more than MaxConcurrency) ids ahead and overtaken by a long run of lower ids; MaxIOConcurrency 1-4, MaxConcurrency 1/2/3/30 (never more commits/replications in flight than tx holders), FileSize 64-512 B, value sizes around the chunk size, empty values at any position, compression on/off, value cache on/off) followed by a generated program of " +
 			"truncations (any cut point, repeated, lower after higher, edge cuts 0 and committed+1), further commits, restarts and concurrent phases (truncations racing with each other, with writers and with readers); " +
 			"after every step the whole store is compared with the ledger filled at acknowledgement (ReadTx+ReadValue, Get, History, ExportTx under a 30 s liveness bound, headers, Alh, dual proofs, inclusion proofs, twin replication of the exports). " +
 			"database test: generated SQL tables / document collection / KV filler, truncation through vlogTruncator (Plan + TruncateUptoTx) and pkg/truncator, restart, then catalog, SELECT, document search and new inserts. " +
